@@ -23,7 +23,7 @@ use std::panic::{AssertUnwindSafe, catch_unwind};
 use std::sync::Arc;
 use vcore::{Run, Violation, util};
 use vschema::exec::read_back;
-use vschema::grammar::{Ft, opt, wild_text};
+use vschema::grammar::{Ft, arr1, opt, wild_i64, wild_text};
 use vschema::model;
 use vschema::values::{Fk, Fv, vector};
 
@@ -119,17 +119,92 @@ fn all_configs(n: usize, allow_all_absent: bool) -> Vec<Config> {
     out
 }
 
+/// Where the upgraded nested struct sits inside the field's type.
+#[derive(Clone, Copy, PartialEq, Debug)]
+enum Wrap {
+    Direct,
+    Opt,
+    Arr,
+    WildText,
+    WildI64,
+    MapInMap,
+    ArrInWild,
+    OptInArr,
+}
+const WRAPS: [Wrap; 8] =
+    [Wrap::Direct, Wrap::Opt, Wrap::Arr, Wrap::WildText, Wrap::WildI64, Wrap::MapInMap, Wrap::ArrInWild, Wrap::OptInArr];
+
+impl Wrap {
+    fn name(&self) -> &'static str {
+        match self {
+            Wrap::Direct => "direct",
+            Wrap::Opt => "option",
+            Wrap::Arr => "array",
+            Wrap::WildText => "wildcard-text-map-value",
+            Wrap::WildI64 => "wildcard-i64-map-value",
+            Wrap::MapInMap => "map-in-map-value",
+            Wrap::ArrInWild => "array-in-wildcard-map-value",
+            Wrap::OptInArr => "option-in-array",
+        }
+    }
+    fn ty(&self, s: Ft) -> Ft {
+        match self {
+            Wrap::Direct => s,
+            Wrap::Opt => opt(s),
+            Wrap::Arr => arr1(s),
+            Wrap::WildText => wild_text(s),
+            Wrap::WildI64 => wild_i64(s),
+            Wrap::MapInMap => wild_text(wild_text(s)),
+            Wrap::ArrInWild => wild_text(arr1(s)),
+            Wrap::OptInArr => arr1(opt(s)),
+        }
+    }
+    fn value(&self, v: Fv) -> Fv {
+        let one = |k: Fk, v: Fv| Fv::Map(BTreeMap::from([(k, v)]));
+        match self {
+            Wrap::Direct | Wrap::Opt => v,
+            Wrap::Arr | Wrap::OptInArr => Fv::Array(vec![v]),
+            Wrap::WildText => one(Fk::Text("k".into()), v),
+            Wrap::WildI64 => one(Fk::I64(-7), v),
+            Wrap::MapInMap => one(Fk::Text("o".into()), one(Fk::Text("i".into()), v)),
+            Wrap::ArrInWild => one(Fk::Text("k".into()), Fv::Array(vec![v])),
+        }
+    }
+    fn unwrap<'a>(&self, v: &'a Fv) -> Option<&'a Fv> {
+        let first = |v: &'a Fv| -> Option<&'a Fv> {
+            match v {
+                Fv::Array(a) if a.len() == 1 => a.first(),
+                Fv::Map(m) if m.len() == 1 => m.values().next(),
+                _ => None,
+            }
+        };
+        match self {
+            Wrap::Direct | Wrap::Opt => Some(v),
+            Wrap::Arr | Wrap::OptInArr | Wrap::WildText | Wrap::WildI64 => first(v),
+            Wrap::MapInMap | Wrap::ArrInWild => first(v).and_then(first),
+        }
+    }
+}
+
 #[derive(Clone, Copy, PartialEq)]
 enum Scope {
     Top,
-    Nested,
+    Nested(Wrap),
 }
 
 impl Scope {
+    /// signature class: the wrapper is not part of it (a defect of nested
+    /// keys is the same defect wherever the struct sits)
     fn name(&self) -> &'static str {
         match self {
             Scope::Top => "top",
-            Scope::Nested => "nested",
+            Scope::Nested(_) => "nested",
+        }
+    }
+    fn full(&self) -> String {
+        match self {
+            Scope::Top => "top".into(),
+            Scope::Nested(w) => format!("nested/{}", w.name()),
         }
     }
 }
@@ -147,14 +222,14 @@ fn build_schema(scope: Scope, slots: &[Slot], cfg: &Config, version: u64) -> Sch
                 }
             }
         }
-        Scope::Nested => {
+        Scope::Nested(w) => {
             let mut m = BTreeMap::new();
             for (s, st) in slots.iter().zip(cfg) {
                 if let Some(t) = slot_type(s, *st) {
                     m.insert(Fk::Text(s.name.to_string()), t);
                 }
             }
-            b.add_field(FieldEntry::new(NESTED_FIELD.to_string(), FieldType::Map(m)).expect("entry")).expect("add");
+            b.add_field(FieldEntry::new(NESTED_FIELD.to_string(), w.ty(FieldType::Map(m))).expect("entry")).expect("add");
         }
     }
     b.build().expect("schema")
@@ -178,7 +253,15 @@ struct Stored {
     expect: Vec<Option<(u32, Fv)>>,
 }
 
-fn write_docs(scope: Scope, slots: &[Slot], cfg: &Config, lineage: &[Option<u32>], schema: &Arc<Schema>, stage: usize) -> Vec<Stored> {
+fn write_docs(
+    scope: Scope,
+    slots: &[Slot],
+    cfg: &Config,
+    lineage: &[Option<u32>],
+    schema: &Arc<Schema>,
+    stage: usize,
+    rejected: &mut u64,
+) -> Vec<Stored> {
     // cross product of slot values
     let mut combos: Vec<Vec<Option<Fv>>> = vec![vec![]];
     for (s, st) in slots.iter().zip(cfg) {
@@ -195,28 +278,36 @@ fn write_docs(scope: Scope, slots: &[Slot], cfg: &Config, lineage: &[Option<u32>
     }
     let mut out = Vec::new();
     for combo in combos {
-        let mut doc = Document::new(schema.clone());
-        doc.set_id(1);
-        match scope {
-            Scope::Top => {
-                for (s, v) in slots.iter().zip(&combo) {
-                    if let Some(v) = v {
-                        doc.set_field(s.name, v.clone()).expect("valid value under its own schema");
+        // a document the upgraded schema itself refuses is not stored (counted by the caller)
+        let built = catch_unwind(AssertUnwindSafe(|| -> Option<Vec<u8>> {
+            let mut doc = Document::new(schema.clone());
+            doc.set_id(1);
+            match scope {
+                Scope::Top => {
+                    for (s, v) in slots.iter().zip(&combo) {
+                        if let Some(v) = v {
+                            doc.set_field(s.name, v.clone()).ok()?;
+                        }
                     }
                 }
+                Scope::Nested(w) => {
+                    let m: BTreeMap<Fk, Fv> = slots
+                        .iter()
+                        .zip(&combo)
+                        .filter_map(|(s, v)| v.clone().map(|v| (Fk::Text(s.name.to_string()), v)))
+                        .collect();
+                    doc.set_field(NESTED_FIELD, w.value(Fv::Map(m))).ok()?;
+                }
             }
-            Scope::Nested => {
-                let m: BTreeMap<Fk, Fv> = slots
-                    .iter()
-                    .zip(&combo)
-                    .filter_map(|(s, v)| v.clone().map(|v| (Fk::Text(s.name.to_string()), v)))
-                    .collect();
-                doc.set_field(NESTED_FIELD, Fv::Map(m)).expect("valid nested value under its own schema");
-            }
-        }
-        schema.validate(doc.fields()).expect("document valid under its own schema");
-        let mut bytes = Vec::new();
-        cbor2::to_writer(&doc, &mut bytes).expect("serialise");
+            schema.validate(doc.fields()).ok()?;
+            let mut bytes = Vec::new();
+            cbor2::to_writer(&doc, &mut bytes).ok()?;
+            Some(bytes)
+        }));
+        let Ok(Some(bytes)) = built else {
+            *rejected += 1;
+            continue;
+        };
         let expect = combo
             .iter()
             .enumerate()
@@ -243,6 +334,7 @@ struct Stats {
     chains: Vec<u64>,
     docs_written: u64,
     failed_reads: u64,
+    own_writes_rejected: u64,
     cut: bool,
     found: Vec<Found>,
     sample: Option<serde_json::Value>,
@@ -328,7 +420,7 @@ fn step(
                     v: Violation {
                         signature: format!("C13|upgrade|{}|panic|upgrade_with", scope.name()),
                         summary: format!("upgrade_with panicked on chain {chain_str}"),
-                        replay: json!({"scope": scope.name(), "chain": chain.iter().map(|c| c.iter().map(|s| s.tag()).collect::<Vec<_>>()).collect::<Vec<_>>()}),
+                        replay: json!({"scope": scope.full(), "chain": chain.iter().map(|c| c.iter().map(|s| s.tag()).collect::<Vec<_>>()).collect::<Vec<_>>()}),
                     },
                 });
                 chain.pop();
@@ -341,7 +433,7 @@ fn step(
             Ok(Ok(())) => {}
         }
         st.upgrades_permitted += 1;
-        st.chains.push(util::fnv64(format!("{}|{chain_str}", scope.name()).as_bytes()));
+        st.chains.push(util::fnv64(format!("{}|{chain_str}", scope.full()).as_bytes()));
         // model of survival: a slot keeps its lineage while it stays declared
         let prev_cfg = &chain[chain.len() - 2];
         let mut nl = next_lineage;
@@ -356,6 +448,7 @@ fn step(
             })
             .collect();
         let new = Arc::new(new);
+        let reloaded = Arc::new(persisted(&new));
         let mut new_pool: Vec<Stored> = Vec::with_capacity(pool.len() + 27);
         for d in pool {
             let mut d = d.clone();
@@ -363,21 +456,22 @@ fn step(
             let forms: Vec<(&str, Vec<u8>)> = std::iter::once(("as first written", d.orig.clone()))
                 .chain(d.rewritten.clone().map(|b| ("as rewritten after the previous upgrade", b)))
                 .collect();
-            for (form, bytes) in forms {
+            for (form, via, bytes) in forms.iter().flat_map(|(f, b)| [(*f, "the schema object upgrade_with produced", b), (*f, "that schema reloaded from its persisted form", b)]) {
                 st.reads += 1;
+                let reader = if via.starts_with("the schema object") { &new } else { &reloaded };
                 let outcome = catch_unwind(AssertUnwindSafe(|| -> Result<Vec<u8>, (String, String)> {
-                    let back = read_back(&new, &bytes).map_err(|e| ("unreadable".to_string(), e))?;
+                    let back = read_back(reader, bytes).map_err(|e| ("unreadable".to_string(), e))?;
                     let nested: Option<&BTreeMap<Fk, Fv>> = match scope {
                         Scope::Top => None,
-                        Scope::Nested => match back.get_field(NESTED_FIELD) {
+                        Scope::Nested(w) => match back.get_field(NESTED_FIELD).and_then(|v| w.unwrap(v)) {
                             Some(Fv::Map(m)) => Some(m),
-                            other => return Err(("surviving-field-changed".into(), format!("nested field reads as {other:?}"))),
+                            other => return Err(("surviving-field-changed".into(), format!("nested struct reads as {other:?}"))),
                         },
                     };
                     for (i, s) in slots.iter().enumerate() {
                         let got = match scope {
                             Scope::Top => back.get_field(s.name),
-                            Scope::Nested => nested.and_then(|m| m.get(&Fk::Text(s.name.to_string()))),
+                            Scope::Nested(_) => nested.and_then(|m| m.get(&Fk::Text(s.name.to_string()))),
                         };
                         match (&d.expect[i], new_lineage[i]) {
                             (Some((l, want)), Some(cur)) if *l == cur => {
@@ -386,7 +480,7 @@ fn step(
                                 if !same {
                                     return Err((
                                         "surviving-field-changed".into(),
-                                        format!("{} {} was written {want:?}, reads {got:?}", if scope == Scope::Top { "field" } else { "key" }, s.name),
+                                        format!("{} {} was written {want:?}, reads {got:?}", if scope == Scope::Top { "field" } else { "nested key" }, s.name),
                                     ));
                                 }
                             }
@@ -399,7 +493,10 @@ fn step(
                 }));
                 let fail = match outcome {
                     Ok(Ok(b)) => {
-                        latest = Some(b);
+                        // the rewrite a live collection would do uses the in-memory schema
+                        if latest.is_none() || via.starts_with("the schema object") {
+                            latest = Some(b);
+                        }
                         None
                     }
                     Ok(Err(f)) => Some(f),
@@ -422,12 +519,13 @@ fn step(
                         v: Violation {
                             signature: format!("C13|upgrade|{}|{kind}|{class}", scope.name()),
                             summary: format!(
-                                "chain {chain_str}: document written under version {} ({form}) with {:?}: {detail}",
+                                "{} chain {chain_str}: document written under version {} ({form}), read with {via}, with {:?}: {detail}",
+                                scope.full(),
                                 d.stage + 1,
                                 d.expect.iter().enumerate().filter_map(|(i, e)| e.as_ref().map(|(_, v)| format!("{}={v:?}", slots[i].name))).collect::<Vec<_>>()
                             ),
                             replay: json!({
-                                "scope": scope.name(),
+                                "scope": scope.full(),
                                 "chain": chain.iter().map(|c| c.iter().map(|s| s.tag()).collect::<Vec<_>>()).collect::<Vec<_>>(),
                                 "chain_readable": chain_str,
                                 "written_under_version": d.stage + 1,
@@ -439,10 +537,10 @@ fn step(
             d.rewritten = latest;
             new_pool.push(d);
         }
-        let fresh = write_docs(scope, slots, cfg, &new_lineage, &new, chain.len() - 1);
+        let fresh = write_docs(scope, slots, cfg, &new_lineage, &new, chain.len() - 1, &mut st.own_writes_rejected);
         st.docs_written += fresh.len() as u64;
         if st.sample.is_none() && chain.len() == 3 && chain[0] != chain[1] && chain[1] != chain[2] {
-            st.sample = Some(json!({"scope": scope.name(), "permitted_chain": chain_str, "documents_checked": new_pool.len()}));
+            st.sample = Some(json!({"scope": scope.full(), "permitted_chain": chain_str, "documents_checked": new_pool.len()}));
         }
         new_pool.extend(fresh);
         step(scope, slots, configs, chain, &new, &new_lineage, nl, &new_pool, max_len, deadline, st);
@@ -453,7 +551,7 @@ fn step(
 fn explore(scope: Scope, first: &Config, configs: &[Config], max_len: usize, deadline: std::time::Instant) -> Stats {
     let slots = match scope {
         Scope::Top => top_slots(),
-        Scope::Nested => nested_slots(),
+        Scope::Nested(_) => nested_slots(),
     };
     let mut st = Stats::default();
     let s0 = build_schema(scope, &slots, first, 1);
@@ -470,7 +568,7 @@ fn explore(scope: Scope, first: &Config, configs: &[Config], max_len: usize, dea
         })
         .collect();
     let s0a = Arc::new(s0.clone());
-    let pool = write_docs(scope, &slots, first, &lineage, &s0a, 0);
+    let pool = write_docs(scope, &slots, first, &lineage, &s0a, 0, &mut st.own_writes_rejected);
     st.docs_written += pool.len() as u64;
     let mut chain = vec![first.clone()];
     step(scope, &slots, configs, &mut chain, &s0, &lineage, n, &pool, max_len, deadline, &mut st);
@@ -497,7 +595,13 @@ fn main() {
     if let Some(file) = run.replay_file.clone() {
         let v: serde_json::Value = serde_json::from_slice(&std::fs::read(&file).expect("read replay")).expect("json");
         let r = &v["replay"];
-        let scope = if r["scope"] == "nested" { Scope::Nested } else { Scope::Top };
+        let sc = r["scope"].as_str().unwrap_or("top");
+        let scope = match sc.strip_prefix("nested") {
+            Some(rest) => Scope::Nested(
+                WRAPS.iter().copied().find(|w| rest.trim_start_matches('/') == w.name()).unwrap_or(Wrap::Direct),
+            ),
+            None => Scope::Top,
+        };
         let chain: Vec<Config> = r["chain"]
             .as_array()
             .expect("chain")
@@ -510,8 +614,10 @@ fn main() {
         for c in &top_cfgs {
             jobs.push((Scope::Top, c.clone(), top_cfgs.clone(), max_len));
         }
-        for c in &nested_cfgs {
-            jobs.push((Scope::Nested, c.clone(), nested_cfgs.clone(), max_len));
+        for w in WRAPS {
+            for c in &nested_cfgs {
+                jobs.push((Scope::Nested(w), c.clone(), nested_cfgs.clone(), max_len));
+            }
         }
     }
     let stats = util::par_map(jobs, util::n_threads(), |(scope, first, cfgs, len)| explore(scope, &first, &cfgs, len, deadline));
@@ -524,6 +630,7 @@ fn main() {
         run.add("upgrades_permitted", s.upgrades_permitted);
         run.add("documents_written", s.docs_written);
         run.add("failed_reads", s.failed_reads);
+        run.add("valid_documents_rejected_by_their_own_upgraded_schema", s.own_writes_rejected);
         for c in s.chains {
             run.distinct(c);
         }
